@@ -25,6 +25,7 @@ TWO2K = '2048-bit modulus only provides 112-bits of symmetric strength'
 RSA = list(gen.RSA_FAMILY)
 RSA_CERTS = ['ssh-rsa-cert-v01@openssh.com', 'rsa-sha2-256-cert-v01@openssh.com', 'rsa-sha2-512-cert-v01@openssh.com']
 OTHER = ['ssh-ed25519', 'ssh-ed448', 'ecdsa-sha2-nistp256', 'ecdsa-sha2-nistp384', 'ecdsa-sha2-nistp521', 'ssh-dss']
+ECDSA_CERTS = ['ecdsa-sha2-nistp256-cert-v01@openssh.com', 'ecdsa-sha2-nistp384-cert-v01@openssh.com', 'ecdsa-sha2-nistp521-cert-v01@openssh.com']
 ECBITS = {'ecdsa-sha2-nistp256': 256, 'ecdsa-sha2-nistp384': 384, 'ecdsa-sha2-nistp521': 521}
 
 
@@ -57,6 +58,12 @@ def make_prof(rng, tier):
         ct = rng.choice(ca_types)
         keys['ssh-ed25519-cert-v01@openssh.com'] = {'ca_type': ct, 'ca_bits': rsa_bits(rng, tier) if ct == 'ssh-rsa' else 0}
         keylist.insert(rng.randrange(len(keylist) + 1), 'ssh-ed25519-cert-v01@openssh.com')
+    if rng.random() < 0.25:
+        # ECDSA host certificates (three curves), signed by any kind of CA
+        for ec in rng.sample(ECDSA_CERTS, rng.randrange(1, 3)):
+            ct = rng.choice(ca_types)
+            keys[ec] = {'ca_type': ct, 'ca_bits': rsa_bits(rng, tier) if ct == 'ssh-rsa' else 0}
+            keylist.insert(rng.randrange(len(keylist) + 1), ec)
     if not keylist:
         keylist = ['ssh-ed25519']
         keys['ssh-ed25519'] = {}
@@ -271,7 +278,7 @@ def judge(case, prof, srv, shown, isjson):
             out.append(viol('C11 CA details reported for a host key that is not a certificate', 'alg=%s reported=%r key list=%r' % (alg, {k: r[k] for k in ('size', 'ca_size', 'ca_type')}, advertised)))
         shows_size = (alg in RSA) or (not isjson) or alg.startswith('ssh-rsa-cert-v0')
         if shows_size and r['size'] != facts['bits']:
-            out.append(viol('C11 reported %s size differs from the presented key' % ('certificate' if is_cert else 'RSA'),
+            out.append(viol('C11 reported %s size differs from the presented key' % (('ECDSA certificate' if alg.startswith('ecdsa-') else 'certificate') if is_cert else 'RSA'),
                             'alg=%s presented %d-bit, reported %r' % (alg, facts['bits'], r['size'])))
         if is_cert:
             want_ca_type = 'RSA' if (facts['ca_type'] in RSA and not isjson) else facts['ca_type']
